@@ -58,9 +58,9 @@ EXPECTED_PROBES = ["outcome.datetime", "outcome.ParserError",
                    "repeat_identical"]
 
 CLASSES = {
-    "calls":   dict(quick=4000, thorough=120000, timeout=60),
-    "stream":  dict(quick=1500, thorough=40000, timeout=60),
-    "threads": dict(quick=1500, thorough=40000, timeout=60),
+    "calls":   dict(quick=8000, thorough=120000, timeout=60),
+    "stream":  dict(quick=3000, thorough=40000, timeout=60),
+    "threads": dict(quick=3000, thorough=40000, timeout=60),
 }
 
 
